@@ -379,6 +379,10 @@ class SpecCtx:
             return v == nv
         return z3.And(self.isinst(v, clsname), Val.r(v) >= ALLOC_BASE)
 
+    def created_during_call(self, v):
+        """v is an object allocated after the call started."""
+        return z3.And(Val.is_VRef(v), Val.r(v) >= self.old.snap.next_id)
+
     def elems(self, listval, p):
         """Declare the sort of the elements of a list value (used when the code iterates over it)."""
         self.I.st.ghost.setdefault("elem_sorts", {})[str(z3.simplify(listval))] = p
